@@ -222,10 +222,20 @@ def _compare_to_zero(
     try:
         if check_lt_zero:
             # Less than zero anywhere == NOT geq zero everywhere
-            return not f >= 0
+            decided = not f >= 0
         else:
             # Greater than zero anywhere == NOT leq zero everywhere
-            return not f <= 0
+            decided = not f <= 0
+        if decided:
+            return True
+        # sympy 1.14 decides e.g. `1 - 1/(a*b) <= 0` (a, b positive integers) as True: only keep
+        # a "never negative / never positive" answer that survives both corners of the box
+        for corner in ({s: lo for s, lo, hi in bounds}, {s: hi for s, lo, hi in bounds}):
+            v = f.subs(corner)
+            if v.is_number and ((v < 0) if check_lt_zero else (v > 0)):
+                break
+        else:
+            return False
     except TypeError:
         pass
 
